@@ -436,6 +436,7 @@ func init() {
 	Properties["C20"] = &PropertySpec{
 		Modules: []string{"bigtable", "storage"},
 		Rules: []Rule{
+			Only(R58(), `^e/`),
 			R83(),
 			R74(),
 			R73(),
